@@ -7,7 +7,8 @@
 (* quiet = FALSE: writes, compaction, rounds, deliveries, loss.            *)
 (* quiet = TRUE : no more writes and no more loss; rounds between every    *)
 (*                ordered pair and the delivery of every datagram are      *)
-(*                weakly fair.  Packet budgets still truncate deltas.      *)
+(*                fair (rounds strongly: a round needs room in the bounded *)
+(*                network).  Packet budgets still truncate deltas.         *)
 (***************************************************************************)
 EXTENDS Gossip
 
@@ -23,7 +24,11 @@ Writes ==
   \/ \E n \in Writers, k \in Key : DoDelete(n, k)
   \/ \E n \in Writers : DoCompact(n)
 
-Round(a, b) == DoRound(a, b)
+\* The bound on datagrams in flight is a model artefact (a datagram that finds no free slot is lost at once).
+\* Once the network "eventually delivers" (quiet) a round is only started when its own traffic and that of the
+\* rounds already in flight fits: a digest request needs a spare slot when it is answered (delta + digest).
+ReqInFlight == Cardinality({s \in DOMAIN net : net[s].t = "dig" /\ net[s].req})
+Round(a, b) == (quiet => Cardinality(FreeSlots) >= 2 + ReqInFlight) /\ DoRound(a, b)
 Deliver(slot) ==
   \/ \E cut \in 0..MaxCut : DoRecvDigest(slot, FALSE, cut)
   \/ DoRecvDelta(slot, FALSE)
@@ -36,7 +41,8 @@ CNext ==
   \/ (\E slot \in 1..MaxSlots : Deliver(slot)) /\ UNCHANGED quiet
 
 Fairness ==
-  /\ \A a, b \in Node : WF_cvars(Round(a, b) /\ UNCHANGED quiet)
+  \* strong fairness: a round can only start while there is room for its traffic, which other rounds keep using
+  /\ \A a, b \in Node : SF_cvars(Round(a, b) /\ UNCHANGED quiet)
   /\ \A slot \in 1..MaxSlots : WF_cvars(Deliver(slot) /\ UNCHANGED quiet)
   /\ WF_cvars(Quiesce)
 
